@@ -1,4 +1,5 @@
 import SymVerif.Model.Struct
+import SymVerif.Lemmas.C37Eqb
 /-!
 # C39 — structural queries are accurate
 
@@ -12,6 +13,9 @@ particular for the fuel the driver uses; none depends on the tree being canonica
 * `hasSymbol_agrees_free` for a Symbol `x`, `has_symbol(e, x)` agrees with membership in `free_symbols(e)`
                           on binder-free trees (the property's "has_symbol agrees with it" clause)
 * `subs_bound_not_free`   a variable bound by `Subs` that does not occur in the points is not free
+* `atoms_nodup_sorted`    `atoms` returns a duplicate-free list in canonical order (a set)
+* `freeSyms_spec/sound`   the printed `free_symbols` has exactly the dumps of the symbols the walk reports;
+                          each is a Symbol node of the tree
 * `atoms_sound/complete`  `atoms<K…>` returns exactly the dumps of the walk's nodes of a requested kind
 -/
 namespace SymVerif.C39
@@ -242,6 +246,108 @@ theorem dedup_aux_nodup (l acc : List String) (h : acc.Nodup) :
 
 /-- … so `atoms` returns a duplicate-free list -/
 theorem dedup_nodup (l : List String) : (dedup l).Nodup := dedup_aux_nodup l [] (by simp)
+
+/-! ### the printed results are sets in canonical order; `free_symbols` members -/
+
+theorem insertStr_perm (s : String) (l : List String) : (insertStr s l).Perm (s :: l) := by
+  induction l with
+  | nil => simp [insertStr]
+  | cons t ts ih =>
+    unfold insertStr
+    split
+    · exact List.Perm.refl _
+    · exact (List.Perm.cons t ih).trans (List.Perm.swap s t ts)
+
+theorem sortStrs_perm (l : List String) : (sortStrs l).Perm l := by
+  induction l with
+  | nil => simp [sortStrs]
+  | cons t ts ih =>
+    have : sortStrs (t :: ts) = insertStr t (sortStrs ts) := rfl
+    rw [this]
+    exact (insertStr_perm t _).trans (List.Perm.cons t ih)
+
+theorem insertStr_sorted (s : String) (l : List String) (h : l.Pairwise (· ≤ ·)) :
+    (insertStr s l).Pairwise (· ≤ ·) := by
+  induction l with
+  | nil => simp [insertStr]
+  | cons t ts ih =>
+    unfold insertStr
+    split
+    · rename_i hst
+      rw [List.pairwise_cons]
+      refine ⟨?_, h⟩
+      intro a ha
+      rcases List.mem_cons.mp ha with rfl | ha
+      · exact hst
+      · exact String.le_trans hst ((List.pairwise_cons.mp h).1 a ha)
+    · rename_i hst
+      have hts : t ≤ s := by
+        rcases String.le_total s t with h' | h'
+        · exact absurd h' hst
+        · exact h'
+      rw [List.pairwise_cons]
+      refine ⟨?_, ih (List.pairwise_cons.mp h).2⟩
+      intro a ha
+      rcases (mem_insertStr s a ts).mp ha with rfl | ha
+      · exact hts
+      · exact (List.pairwise_cons.mp h).1 a ha
+
+theorem sortStrs_sorted (l : List String) : (sortStrs l).Pairwise (· ≤ ·) := by
+  induction l with
+  | nil => simp [sortStrs]
+  | cons t ts ih =>
+    have : sortStrs (t :: ts) = insertStr t (sortStrs ts) := rfl
+    rw [this]; exact insertStr_sorted t _ ih
+
+/-- `atoms<K…>(e)` is a *set*: the returned list is duplicate-free and in the canonical (sorted) order,
+    so two calls that return the same members return the same list. -/
+theorem atoms_nodup_sorted (ks : List Kind) (e : Expr) :
+    (atoms ks e).Nodup ∧ (atoms ks e).Pairwise (· ≤ ·) := by
+  unfold atoms
+  exact ⟨(sortStrs_perm _).nodup_iff.mpr (dedup_nodup _), sortStrs_sorted _⟩
+
+/-- `free_symbols(e)` as printed is in canonical (sorted) order and its members are exactly the dumps of the
+    symbols the binder-aware walk reports. -/
+theorem freeSyms_sorted (e : Expr) : (freeSyms e).Pairwise (· ≤ ·) := by
+  unfold freeSyms; exact sortStrs_sorted _
+
+theorem memb_mem {x : Expr} {l : List Expr} (h : Expr.memb x l = true) : x ∈ l := by
+  unfold Expr.memb at h
+  obtain ⟨y, hy, he⟩ := List.any_eq_true.mp h
+  exact (Expr.eqb_eq y x he) ▸ hy
+
+theorem mem_dedupE_aux (x : Expr) (l acc : List Expr) :
+    x ∈ l.foldl (fun acc s => if Expr.memb s acc then acc else acc ++ [s]) acc ↔ x ∈ acc ∨ x ∈ l := by
+  induction l generalizing acc with
+  | nil => simp
+  | cons t ts ih =>
+    simp only [List.foldl_cons, ih]
+    by_cases h : Expr.memb t acc = true
+    · have ht : t ∈ acc := memb_mem h
+      simp only [h, if_true, List.mem_cons]
+      constructor
+      · rintro (h | h) <;> simp [h]
+      · rintro (h | rfl | h) <;> simp_all
+    · simp only [h, List.mem_append, List.mem_cons]
+      grind
+
+theorem mem_dedupE (x : Expr) (l : List Expr) : x ∈ dedupE l ↔ x ∈ l := by
+  unfold dedupE; rw [mem_dedupE_aux]; simp
+
+/-- The printed `free_symbols(e)` has exactly the dumps of the symbols reported by the binder-aware walk:
+    de-duplication and sorting neither lose nor invent a member. -/
+theorem freeSyms_spec (e : Expr) (d : String) :
+    d ∈ freeSyms e ↔ ∃ s ∈ freeSymsF (size e + 1) e, Expr.dumpCanon s = d := by
+  unfold freeSyms freeSymsE
+  rw [mem_sortStrs]
+  simp only [List.mem_map, mem_dedupE]
+
+/-- … hence every printed free symbol is the dump of a Symbol node of the tree (no invented names). -/
+theorem freeSyms_sound (e : Expr) (d : String) (h : d ∈ freeSyms e) :
+    ∃ s ∈ subtermsF (size e + 1) e, isSym s = true ∧ Expr.dumpCanon s = d := by
+  obtain ⟨s, hs, hd⟩ := (freeSyms_spec e d).mp h
+  obtain ⟨h1, h2⟩ := freeSymsF_subset _ e s hs
+  exact ⟨s, h1, h2, hd⟩
 
 /-! ### non-vacuity: the hypotheses are met by concrete non-trivial trees -/
 
